@@ -76,6 +76,11 @@ Remember(s0, key, s, ops) ==
         new == [start |-> s, ops |-> IF ops # Unknown THEN ops ELSE old.ops]
     IN  [s0 EXCEPT !.mem = [x \in (DOMAIN s0.mem) \cup {key} |-> IF x = key THEN new ELSE s0.mem[x]]]
 
+RECURSIVE RememberAllRec(_, _, _, _, _)
+RememberAllRec(s0, ti, k, items, x) ==     \* items = <<start, end (exclusive), d>> triples
+    IF x > Len(items) THEN s0
+    ELSE RememberAllRec(Remember(s0, << ti, k, items[x][2] - 1 >>, items[x][1], Unknown), ti, k, items, x + 1)
+
 AlnOK(a, m, n, s, e, d) ==
     /\ a.xstart = 0 /\ a.xend = m /\ a.xlen = m /\ a.ylen = n
     /\ a.ystart = s /\ a.yend = e + 1 /\ a.score = d /\ a.mode = "Semiglobal"
@@ -109,7 +114,28 @@ Judge(cfg, s0, ev) ==
         InDomain(e) == e < o.i /\ (Within(row[e + 1], o.k) \/ cfg.objs[oi].impl = "simple")
     IN
     IF r.st # "ok" THEN Bad            \* nothing in this family is allowed to panic
-    ELSE CASE c.op = "new" -> [good |-> TRUE, exact |-> TRUE, st |-> s0]
+    ELSE CASE c.op \in {"new", "clone", "clone_from", "debug"} ->
+           \* an object created, or copied from object a.from in the middle of its history (clone;
+           \* clone_from into a used object of another pattern), or formatted with Debug: the
+           \* events that follow on a.obj are judged like those of any other object
+           [good |-> TRUE, exact |-> TRUE, st |-> s0]
+      \* a fresh eager / lazy iterator consumed through count / last / nth / skip / step_by, or
+      \* asked for its size_hint after n items; afterwards the iterator is gone
+      [] c.op = "iter_via" /\ o.mode \in {"eager", "lazy"} /\ o.i = 0 ->
+           LET h    == HitsOfRow(row, o.k)
+               done == SetObj([o EXCEPT !.mode = "none"])
+               want == ViaSeq(h, c.a.how, c.a.n)
+           IN  IF c.a.how = "size_hint"
+               THEN [good |-> HintOK(r.v, Len(h) - Min2(c.a.n, Len(h))), exact |-> TRUE, st |-> done]
+               ELSE IF c.a.how = "count" \/ o.mode = "lazy"
+               THEN [good |-> r.v = want, exact |-> TRUE, st |-> done]
+               ELSE IF Len(r.v) = Len(want)
+                       /\ \A x \in 1..Len(want) :
+                             /\ Len(r.v[x]) = 3 /\ r.v[x][2] = want[x][1] + 1 /\ r.v[x][3] = want[x][2]
+                             /\ AnswerOK(cfg, s0, Key(want[x][1]), want[x][1], r.v[x][1], want[x][2], Unknown)
+                    THEN [good |-> TRUE, exact |-> \A x \in 1..Len(want) : Exact(want[x][1], r.v[x][1], Unknown),
+                          st |-> RememberAllRec(done, o.ti, o.k, r.v, 1)]
+                    ELSE Bad
       [] c.op = "search" ->
            [good |-> TRUE, exact |-> TRUE, st |-> SetObj([mode |-> c.a.mode, ti |-> c.a.ti, k |-> c.a.k, i |-> 0,
                                           cur |-> -1, fin |-> FALSE])]
